@@ -20,6 +20,64 @@ def strip(text):
     text = re.sub(r"#\[cfg\(num_bigint_verif\)\]\s*\n?\s*[^\n;{]*;", "", text)
     return text
 
+KEYWORDS = set("""as break const continue crate else enum extern false fn for if impl in let loop match mod move mut
+pub ref return self Self static struct super trait true type unsafe use where while dyn async await""".split())
+
+def alpha(body):
+    """Rename the local binders of one function (parameters, `let`, `for`, closure parameters, tuple
+    patterns of those) to v0, v1, ... in order of first binding, so that a consistent renaming of
+    local variables does not change the hash.  Field and method names (after `.`), paths (`a::b`)
+    and macro / function names are left alone; a name is only renamed if it is bound somewhere in
+    this function, and every unqualified occurrence of it is renamed the same way, so two bodies
+    with the same normal form differ by a consistent renaming of locals only."""
+    bound = []
+    def add(names):
+        for n in re.findall(r"\b[a-z_][a-z0-9_]*\b", names):
+            if n not in KEYWORDS and n != "_" and n not in bound:
+                bound.append(n)
+    sig = re.match(r"fn\s+\w+\s*(?:<[^{(]*>)?\s*\(", body)
+    events = []
+    if sig:
+        depth, k = 1, sig.end()
+        while k < len(body) and depth:
+            depth += body[k] == "("
+            depth -= body[k] == ")"
+            k += 1
+        params = body[sig.end():k - 1]
+        for m in re.finditer(r"(?:^|,)\s*(?:mut\s+)?(\w+)\s*:", params):
+            events.append((sig.end() + m.start(), m.group(1)))
+    for m in re.finditer(r"\blet\s+(?:mut\s+)?(\w+)\b", body):
+        events.append((m.start(), m.group(1)))
+    for m in re.finditer(r"\b(?:let|for)\s+(?:mut\s+)?\(([^=]*?)\)\s*(?:=|in\b|:)", body):
+        events.append((m.start(), re.sub(r"\bmut\b|\bref\b", " ", m.group(1))))
+    for m in re.finditer(r"\bfor\s+(?:mut\s+)?(\w+)\s+in\b", body):
+        events.append((m.start(), m.group(1)))
+    for m in re.finditer(r"(?<![|])\|([^|{};]{0,80})\|(?![|])", body):
+        inner = re.sub(r":[^,|]*", "", m.group(1))
+        if re.fullmatch(r"[\s\w,&()]*", inner):
+            events.append((m.start(), re.sub(r"\bmut\b|\bref\b", " ", inner)))
+    for m in re.finditer(r"\b(?:Some|Ok|Err)\(\s*(?:mut\s+|ref\s+)*(\w+)\s*\)\s*(?:=>|=(?!=)|if\b)", body):
+        events.append((m.start(), m.group(1)))
+    for m in re.finditer(r"[{,]\s*([a-z_]\w*)\s*=>", body):
+        events.append((m.start(), m.group(1)))
+    for _, names in sorted(events):
+        add(names)
+    if not bound:
+        return body
+    idx = {n: "v%d" % i for i, n in enumerate(bound)}
+    def sub(m):
+        n = m.group(0)
+        if n not in idx:
+            return n
+        pre = body[max(0, m.start() - 2):m.start()]
+        post = body[m.end():m.end() + 2]
+        if pre.endswith(".") and not pre.endswith(".."):
+            return n
+        if pre.endswith("::") or post.startswith("::") or post.startswith("!"):
+            return n
+        return idx[n]
+    return re.sub(r"\b[a-z_][a-z0-9_]*\b", sub, body)
+
 def functions(path):
     code = strip(open(path, errors="replace").read())
     out = {}
@@ -35,7 +93,7 @@ def functions(path):
             elif code[k] == "}":
                 depth -= 1
                 if depth == 0:
-                    body = re.sub(r"\s+", " ", code[m.start():k + 1]).strip()
+                    body = alpha(re.sub(r"\s+", " ", code[m.start():k + 1]).strip())
                     name = m.group(1)
                     n = sum(1 for key in out if key.split("#")[0] == name)
                     out[name if n == 0 else "%s#%d" % (name, n)] = hashlib.sha256(body.encode()).hexdigest()[:12]
